@@ -181,7 +181,22 @@ func (e *Engine) hints(st *State, hs []*Clause) {
 			continue
 		}
 		if e.sortOf(v.Typ) == "Bool" {
-			e.assume(guard, v.T)
+			// only instances of valid laws may be assumed: fsplit/bsplit seeds, or a call of a lemma function (a unit
+			// with a contract of its own, whose postconditions the call has already made available)
+			name := ""
+			if call, ok := unparen(h.Expr).(*ast.CallExpr); ok {
+				if id, ok := unparen(call.Fun).(*ast.Ident); ok {
+					name = id.Name
+				}
+			}
+			switch {
+			case name == "fsplit" || name == "bsplit":
+				e.assume(guard, v.T)
+			case strings.HasPrefix(name, "lemma"):
+				// nothing to add: evaluating the call applied the lemma's contract
+			default:
+				panic(unsupportedErr{fmt.Sprintf("hint %q: a Boolean hint must be a split seed or a lemma call", h.Text)})
+			}
 		} else if e.sortOf(v.Typ) == "BSeq" {
 			// a byte-sequence term the proof needs to exist (it seeds the associativity and merge laws)
 			e.assume(guard, sx("fknown", v.T))
